@@ -127,6 +127,15 @@ fn judge_mismatch<F: Fl>(la: usize, lb: usize, l: &mut Local) {
         ("Paired::ci", Paired::<F>::ci(conf(Kind::Two, 0.9), &a, &b).map(|_| ())),
         ("Paired::extend", Paired::<F>::default().extend(&a, &b)),
     ];
+    // the reported lengths are those of the two sequences handed to this call, whatever the state held
+    let entries: Vec<(&'static str, Result<(), CIError>)> = {
+        let mut e = entries;
+        let mut st = Paired::<F>::default();
+        let _ = st.append_pair(F::of(1.0), F::of(0.5));
+        let _ = st.extend_tuple(&vec![(F::of(2.0), F::of(1.0)), (F::of(3.0), F::of(2.5))]);
+        e.push(("Paired::extend(on a non-empty state)", st.extend(&a, &b)));
+        e
+    };
     for (name, r) in entries {
         l.eval();
         l.count("unequal lengths judged");
@@ -219,6 +228,10 @@ fn judge_unpaired<F: Fl>(c: &Case, l: &mut Local) {
     let (fmax, fmin) = if F::IS32 { (f32::MAX as f64, f32::MIN_POSITIVE as f64) } else { (f64::MAX, f64::MIN_POSITIVE) };
     let in_range = |s: &ExactStats| s.q_f <= fmax / 64.0 && (s.var_f == 0.0 || s.var_f >= fmin * 2f64.powi(if F::IS32 { 40 } else { 110 }));
     let dom = okc(&sa) && okc(&sb) && (sa.var_f > 0.0 || sb.var_f > 0.0) && in_range(&sa) && in_range(&sb);
+    let both_constant = sa.n >= 2 && sb.n >= 2 && sa.var_f == 0.0 && sb.var_f == 0.0;
+    if both_constant {
+        l.count("unpaired: both samples constant");
+    }
     // feeding styles
     let s_ci = Unpaired::<F>::from_iter(&a, &b).unwrap();
     let mut s_ext = Unpaired::<F>::default();
@@ -281,6 +294,20 @@ fn judge_unpaired<F: Fl>(c: &Case, l: &mut Local) {
             }
             (x, y) if same(x, y) => {}
             (x, y) => l.violation(format!("Unpaired::ci|{}|exchange-changes-outcome", F::TY), "exchanging the samples changes the outcome class".to_string(), case(), json!({"ci(a,b)": x.describe(), "ci(b,a)": y.describe()})),
+        }
+        if both_constant {
+            // zero variance on both sides: no panic, no NaN; the degenerate interval at the difference
+            l.eval();
+            let d = sa.mean_f - sb.mean_f;
+            let ok = match &base {
+                Out::Ok(o) => !o.has_nan() && (kind == Kind::Lower || (o.lo - d).abs() <= 4.0 * F::U * (sa.mean_f.abs() + sb.mean_f.abs())) && (kind == Kind::Upper || (o.hi - d).abs() <= 4.0 * F::U * (sa.mean_f.abs() + sb.mean_f.abs())),
+                Out::Err(..) => true,
+                Out::Panic(_) => false,
+            };
+            if !ok {
+                l.violation(format!("Unpaired::ci|{}|both-samples-constant|{}", F::TY, base.class()), "two constant samples do not give the degenerate interval at the difference of the constants (or an error)".to_string(), case(), json!({"kind": kind.name(), "level": level, "observed": base.describe(), "difference": d}));
+            }
+            continue;
         }
         let r = match &reference {
             Some(r) => r,
@@ -379,9 +406,15 @@ fn make_case(seed: u64, i: u64, levels: &[f64], quick: bool) -> Case {
     };
     let mut a = Spec { family: fam_a, n: na, seed: r.next_u64(), f32, positive: false };
     let b = Spec { family: fam_b, n: nb, seed: r.next_u64(), f32, positive: false };
+    let mut b = b;
     if j % 16 == 9 {
         // one constant sample (exactly representable constant)
         a.family = Family::Constant;
+    }
+    if j % 48 == 25 {
+        // both samples constant: the interval collapses to the difference of the two constants
+        a.family = Family::Constant;
+        b.family = Family::Constant;
     }
     let mut confs = vec![];
     for kind in KINDS {
@@ -468,6 +501,7 @@ pub fn run(run: &Arc<Run>) {
         "mirror judged".into(),
         "unequal lengths judged".into(),
         "unpaired: one constant sample".into(),
+        "unpaired: both samples constant".into(),
         "unpaired: unequal sizes".into(),
         "unpaired: very unequal sizes".into(),
         "unpaired:ordinary-magnitude".into(),
